@@ -1,16 +1,22 @@
 """C14 \u2014 JSON output is always one valid JSON object per line and faithful to the data.
 
-Leg A: theorems of coq/theories/Properties/C14.v over Fmt/JsonModel.v (render = serde_json's compact writer, an
-       independent strict parser, the type mapping as implemented, BTreeMap span fields, parse-merge-reserialise,
-       event_record for every option combination, histories).
-Leg B: translators/json_fmt.py (every run) -> Gen_json.v: shape facts of json.rs / tracing-serde + the switches
-       fx10 / fx141 (+ f142 for this driver); correspondence: the real formatter's bytes for every event of every
-       generated history are parsed by Python's json (object_pairs_hook keeps order and duplicates; not serde_json) and
-       compared as ordered trees with the bytes of the model's `run` on the same history; float-free records also byte
-       for byte (this ties `render` to serde_json's compact writer).  Finite floats: numerically only (PARTIAL).
+Leg A: theorems of coq/theories/Properties/C14.v over Fmt/JsonModel.v (render = serde_json's compact writer, an independent
+       strict parser, the type mapping as implemented, BTreeMap span fields, parse-merge-reserialise, event_record for every
+       option combination, span-lifecycle records, histories) and Fmt/JsonConc.v (concurrent record calls on one span as a
+       micro-step machine over Common/Sched.v).
+Leg B: translators/json_fmt.py (every run) -> Gen_json.v: shape facts of json.rs / tracing-serde / fmt_subscriber.rs, the
+       switches fx10 / fx141 (+ f142 for this driver), on_record's lock discipline, serde_json's ESCAPE table from the
+       dependency's source; correspondence: the real formatter's bytes for every operation of every generated history, on two
+       builds (plain / with the default tracing-log feature), are parsed by Python's json (object_pairs_hook keeps order and
+       duplicates; not serde_json) and compared as ordered trees with the bytes of the model's `run_ops` on the same history;
+       float-free records also byte for byte (this ties `render` to serde_json's compact writer).  Finite floats: numerically
+       only (PARTIAL); every float TOKEN the implementation writes is fed to the model's parser (hypothesis float_token).
 Leg C: oracle = the property text evaluated on the implementation's bytes with the driver's own bookkeeping of what
-       was recorded (never the Coq model): one line, one object, unique keys, event / span fields faithful, span list =
-       scope root->leaf.  Violations are attributed to F10 / F141 / F142 / F143 only when they have that exact shape."""
+       was recorded (never the Coq model): per operation the records due (events, configured lifecycle points), each one line,
+       one object, unique keys, event / span fields faithful, span list = scope root->leaf.  Race operations: two threads
+       record on one span with Debug impls that force the calls to overlap whenever the implementation lets them; afterwards
+       every recorded field must be there.  Violations are attributed to F10 / F141 / F142 / F143 only when they have that
+       exact shape (all but F143 are fixed: a re-observation is a VIOLATION)."""
 import json
 import math
 import os
